@@ -116,6 +116,20 @@ impl<T: Compile + Clone> Compile for Rc<T> {
     }
 }
 
+/// This function checks whether one of the given binders occurs free in a consumer. In this case
+/// the consumer must not be moved underneath these binders, as its free occurrences would be
+/// captured.
+pub fn binders_occur_free(
+    binders: &[&String],
+    cont: &core_lang::syntax::terms::Term<Cns>,
+) -> bool {
+    let mut free_vars = BTreeSet::new();
+    cont.typed_free_vars(&mut free_vars);
+    free_vars
+        .iter()
+        .any(|binding| binders.contains(&&binding.var.name))
+}
+
 /// This function lifts a consumer to the top-level for sharing, in order to avoid exponential
 /// blowup by duplication. It returns a consumer that calls the lifted consumer.
 pub fn share(
